@@ -2,7 +2,8 @@
 (***************************************************************************)
 (* Trace validation for C08: each recorded trace is a DAG (nodes, edges,   *)
 (* latents) built by the real code followed by a sequence of query events  *)
-(* (public call + its return value).  Every event must be what the DSep    *)
+(* (public call + its return value) interleaved with EDIT events on the    *)
+(* same object.  Every event must be what the DSep                         *)
 (* definitions allow.  Verdicts are total: a failing event is reported     *)
 (* with the name of the failing clause, the rest of the batch continues.   *)
 (***************************************************************************)
@@ -10,14 +11,40 @@ EXTENDS DSep, Json, IOUtils
 Traces == JsonDeserialize(IOEnv.TRACE_FILE)
 ToSet(s) == {s[i] : i \in 1..Len(s)}
 
-VARIABLES tid, l, verdict
-vars == <<tid, l, verdict>>
+VARIABLES tid, l, verdict, N, E, Lt        \* N, E, Lt: the CURRENT graph of the object (edit events change it)
+vars == <<tid, l, verdict, N, E, Lt>>
 
 T == Traces[tid]
-N == ToSet(T.nodes)
-E == ToSet(T.edges)
-Lt == ToSet(T.latents)
 Trip(a) == <<a.x, ToSet(a.ys), ToSet(a.zs)>>
+
+(***************************************************************************)
+(* Edit events (the object under query is edited between queries, so that  *)
+(* an answer computed from state remembered before the edit is rejected):  *)
+(*   add_edge x->y (refused iff it closes a cycle or x = y), remove_edge,  *)
+(*   remove_node, add_node (x, latent flag incl), do(z) = cut the edges    *)
+(*   into z.  e.ok records whether the call returned (TRUE) or raised.     *)
+(***************************************************************************)
+EditOps == {"add_edge", "remove_edge", "remove_node", "add_node", "do"}
+EditPre(e) ==
+    CASE e.op = "add_edge" -> e.x # e.y /\ ~(e.x \in N /\ e.y \in N /\ HasPath(E, e.y, e.x))
+      [] e.op = "remove_edge" -> <<e.x, e.y>> \in E
+      [] e.op = "remove_node" -> e.x \in N
+      [] e.op = "add_node" -> TRUE
+      [] e.op = "do" -> ToSet(e.z) \subseteq N
+      [] OTHER -> FALSE
+EditEff(e) ==
+    CASE e.op = "add_edge" -> <<N \cup {e.x, e.y}, E \cup {<<e.x, e.y>>}, Lt>>
+      [] e.op = "remove_edge" -> <<N, E \ {<<e.x, e.y>>}, Lt>>
+      [] e.op = "remove_node" -> <<N \ {e.x}, {d \in E : d[1] # e.x /\ d[2] # e.x}, Lt \ {e.x}>>
+      [] e.op = "add_node" -> <<N \cup {e.x}, E, IF e.incl THEN Lt \cup {e.x} ELSE Lt>>
+      [] e.op = "do" -> <<N, {d \in E : d[2] \notin ToSet(e.z)}, Lt>>
+      [] OTHER -> <<N, E, Lt>>
+EditFails(e) ==
+    IF e.ok = EditPre(e) THEN {} ELSE IF e.ok THEN {"edit.accepted_outside_precondition"} ELSE {"edit.refused_inside_precondition"}
+\* after an edit event the harness logs the graph it reads back from the object
+GraphFails(e) ==
+    (IF ToSet(e.retnodes) = N THEN {} ELSE {"edit.nodes"}) \cup (IF ToSet(e.ret) = E THEN {} ELSE {"edit.edges"})
+    \cup (IF ToSet(e.z) = Lt THEN {} ELSE {"edit.latents"})
 
 \* the set of failing clauses of event e (empty = conformant)
 Fails(e) ==
@@ -44,11 +71,21 @@ Fails(e) ==
          IF {Trip(a) : a \in ToSet(e.ret)} = IndepsRet(N, E, Lt, e.incl) THEN {} ELSE {"get_independencies.set"}
     [] OTHER -> {"unknown_event"}
 
-Init == tid \in 1..Len(Traces) /\ l = 1 /\ verdict = {}
-Step == /\ verdict = {} /\ l <= Len(T.events)
-        /\ verdict' = Fails(T.events[l])
+Init == /\ tid \in 1..Len(Traces) /\ l = 1 /\ verdict = {}
+        /\ N = ToSet(Traces[tid].nodes) /\ E = ToSet(Traces[tid].edges) /\ Lt = ToSet(Traces[tid].latents)
+Query == /\ verdict = {} /\ l <= Len(T.events) /\ T.events[l].op \notin EditOps \cup {"graph"}
+         /\ verdict' = Fails(T.events[l])
+         /\ l' = l + 1 /\ UNCHANGED <<tid, N, E, Lt>>
+Edit == /\ verdict = {} /\ l <= Len(T.events) /\ T.events[l].op \in EditOps
+        /\ LET e == T.events[l]
+               g == IF e.ok /\ EditPre(e) THEN EditEff(e) ELSE <<N, E, Lt>>
+           IN /\ verdict' = EditFails(e)
+              /\ N' = g[1] /\ E' = g[2] /\ Lt' = g[3]
         /\ l' = l + 1 /\ UNCHANGED tid
-Next == Step
+ReadBack == /\ verdict = {} /\ l <= Len(T.events) /\ T.events[l].op = "graph"
+            /\ verdict' = GraphFails(T.events[l])
+            /\ l' = l + 1 /\ UNCHANGED <<tid, N, E, Lt>>
+Next == Query \/ Edit \/ ReadBack
 Done == verdict # {} \/ l > Len(T.events)
 Report == Done => PrintT(ToJson([tid |-> T.tid, l |-> l - 1, fails |-> verdict]))
 WellFormed == Acyclic(N, E)
